@@ -11,6 +11,7 @@ import ast
 
 from ..cfg import known_falsy
 from ..model import self_attr, unparse, walk_body_shallow
+from .util import *  # noqa: F401,F403
 from .util import (decision_table, resolved_facts, reaching_defs, call_name, call_recv, calls_in, guarded_reach, need, node_assign_value, node_writes_attr, norm,
                    registrations, where, aliases_of)
 
@@ -149,7 +150,13 @@ def run(ctx):
             "%s#msg-count-quantity" % sendm.qname, "queued message count is not len(msgs)", where(sendm, sendm.node))
     bv = incs.get("_waitingByteCount")
     bname = unparse(bv) if isinstance(bv, ast.Name) else None
-    bc = [n for n in cf.nodes if n.kind == "stmt" and isinstance(n.stmt, ast.AugAssign) and unparse(n.stmt.target) == bname]
+    # the local the sum is accumulated in: the name added to the counter, or a local it was copied from
+    accs = {bname}
+    for _ in range(3):
+        for x in walk_body_shallow(sendm.body):
+            if isinstance(x, ast.Assign) and isinstance(x.value, ast.Name) and any(isinstance(t, ast.Name) and t.id in accs for t in x.targets):
+                accs.add(x.value.id)
+    bc = [n for n in cf.nodes if n.kind == "stmt" and isinstance(n.stmt, ast.AugAssign) and unparse(n.stmt.target) in accs]
     okb = len(bc) == 1 and isinstance(bc[0].stmt.value, ast.Call) and call_name(bc[0].stmt.value) == "len"
     if okb:
         ev = norm(bc[0].stmt.value.args[0])
@@ -201,7 +208,32 @@ def run(ctx):
             if isinstance(v, ast.Constant) and v.value is None and ("%s is None" % rarg.id, False) in fcc[rm[0].id]:
                 continue
             live.append((dn, v))
-        matched = bool(live) and all(isinstance(v, ast.Name) and _is_match(fcc[dn], v.id) for dn, v in live)
+        def _def_matches(dn, v):
+            if isinstance(v, ast.Name):
+                return _is_match(fcc[dn], v.id)
+            g = prog.resolve_call(canc, v) if isinstance(v, ast.Call) else None
+            if g is not None and g.cls is canc.cls:
+                # a finder method: whatever it returns other than None (excluded by the guard at the removal) was
+                # picked where the match with the Deferred it was given held
+                ps = [p_ for p_ in g.params if p_ not in ("self", "cls")]
+                dpos = [i for i, a in enumerate(v.args) if norm(a) == dparam]
+                if not dpos or dpos[0] >= len(ps):
+                    return False
+                gd = ps[dpos[0]]
+                rc = return_cases(ctx, g)
+                none_excluded = ("%s is None" % rarg.id, False) in fcc[rm[0].id]
+                okc = bool(rc)
+                for n_, f_, e_ in rc:
+                    if isinstance(e_, ast.Constant) and e_.value is None:
+                        okc = okc and none_excluded
+                    elif isinstance(e_, ast.Name):
+                        okc = okc and (("%s.deferred == %s" % (e_.id, gd), True) in f_ or ("%s == %s.deferred" % (gd, e_.id), True) in f_ or (
+                            "%s.deferred is %s" % (e_.id, gd), True) in f_)
+                    else:
+                        okc = False
+                return okc and not falls_off_end(g, ctx) or (okc and none_excluded)
+            return False
+        matched = bool(live) and all(_def_matches(dn, v) for dn, v in live)
     r.check(matched, "%s#dequeue-matches" % canc.qname, "the request removed from the queue is not the one whose Deferred is cancelled",
             where(canc, rm[0].stmt))
     ebs = [(n, c) for n in ccf.nodes for c in n.calls() if call_name(c) == "errback" and call_recv(c) == dparam]
